@@ -282,8 +282,10 @@ fn dump(c: &Compiled, cfg_text: &str) -> anyhow::Result<Value> {
     let ap_vars: Vec<Value> =
         metadata.ap_change_info.variable_values.iter().map(|(idx, v)| json!([idx.0, v])).collect();
     let mut prices = serde_json::Map::new();
+    let mut cost_offsets = serde_json::Map::new();
     for t in CostTokenType::iter_precost() {
         prices.insert(token_name(t), json!(token_gas_cost(*t)));
+        cost_offsets.insert(token_name(t), json!(t.offset_in_builtin_costs()));
     }
     prices.insert("Const".into(), json!(token_gas_cost(CostTokenType::Const)));
     Ok(json!({
@@ -291,6 +293,8 @@ fn dump(c: &Compiled, cfg_text: &str) -> anyhow::Result<Value> {
         "sierra": program.to_string(),
         "insns": insns,
         "code_len": code_len,
+        "end_of_program": code_len + casm.consts_info.total_segments_size,
+        "builtin_cost_offsets": cost_offsets,
         "consts": consts,
         "stmts": stmts,
         "types": types,
